@@ -743,9 +743,19 @@ func main() {
 		}
 	}
 	// piece length larger than any blob (single short piece) incl. huge values.
-	for _, pl := range []int64{1 << 20, 1<<31 - 1, 1 << 31, 1<<62 + 1, 1<<63 - 1} {
+	// (2^31-1 and 2^31 only in the thorough tier and for one length: an
+	// implementation that reads a piece into a piece-length buffer is legitimate
+	// and would spend gigabytes on them.)
+	huge := []int64{1 << 20, 1<<62 + 1, 1<<63 - 1}
+	for _, pl := range huge {
 		for _, n := range []int{0, 1, 2, 33} {
 			addLP(n, pl)
+		}
+	}
+	if thorough {
+		for _, pl := range []int64{1<<31 - 1, 1 << 31} {
+			huge = append(huge, pl)
+			addLP(1, pl)
 		}
 	}
 
@@ -769,8 +779,8 @@ func main() {
 	if thorough {
 		hLen, hPL, hPairs = 40, 12, 150
 	}
-	run.Rule = fmt.Sprintf("A: every blob length 0..%d x piece length 1..%d (plus 2^k,2^k+-1 up to 2^%d with lengths m*pl+{-1,0,1}, m<=3, plus 5 huge piece lengths) x %d content patterns; each through NewMetaInfoFromBytes and NewMetaInfo over %d reader behaviours, then Serialize/DeserializeMetaInfo and TorrentMeta; a case is distinct per (length, piece length, pattern), non-trivial when the blob is non-empty. H (call histories, one goroutine, GOMAXPROCS(1), thread locked, each pair 3 times): for every length 0..%d x piece length 1..%d x pattern, a first NewMetaInfo over a stream that delivers k bytes (every k in 0..length; error with the last bytes or on the next read; whole or 1-byte reads) and then fails with a non-EOF error, followed by a successful bytes + stream (3 readers) generation of the same and of another blob; plus every ordered pair of different successful generations over %d small cases; the second call is judged by the same oracle. B: every piece-length table with 1..%d thresholds from %v and piece lengths from %v x every blob size 0..%d, GetPieceLength and Generate on a real CAStore; distinct per (table, size).",
-		maxLen, maxPL, maxPow, len(patterns), len(readerKinds), hLen, hPL, hPairs, maxN, ths, tpls, maxSize)
+	run.Rule = fmt.Sprintf("A: every blob length 0..%d x piece length 1..%d (plus 2^k,2^k+-1 up to 2^%d with lengths m*pl+{-1,0,1}, m<=3, plus huge piece lengths %v) x %d content patterns; each through NewMetaInfoFromBytes and NewMetaInfo over %d reader behaviours, then Serialize/DeserializeMetaInfo and TorrentMeta; a case is distinct per (length, piece length, pattern), non-trivial when the blob is non-empty. H (call histories, one goroutine, GOMAXPROCS(1), thread locked, each pair 3 times): for every length 0..%d x piece length 1..%d x pattern, a first NewMetaInfo over a stream that delivers k bytes (every k in 0..length; error with the last bytes or on the next read; whole or 1-byte reads) and then fails with a non-EOF error, followed by a successful bytes + stream (3 readers) generation of the same and of another blob; plus every ordered pair of different successful generations over %d small cases; the second call is judged by the same oracle. B: every piece-length table with 1..%d thresholds from %v and piece lengths from %v x every blob size 0..%d, GetPieceLength and Generate on a real CAStore; distinct per (table, size).",
+		maxLen, maxPL, maxPow, huge, len(patterns), len(readerKinds), hLen, hPL, hPairs, maxN, ths, tpls, maxSize)
 	run.Assume("call histories: metainfo must not depend on earlier generations; histories of length 2 (a failed or a successful call, then the judged call) on one P expose state kept between calls; what a generation over a failing stream itself returns is not judged")
 	run.Assume("small-scope: defects in piece splitting / table lookup show on blobs of at most a few hundred bytes (4096*3+1 for power-of-two piece lengths) and tables of at most 4 thresholds")
 	run.Assume("content: three byte patterns (zeros, counter, fixed xorshift table) stand for arbitrary contents; the checksum reference is an independently written CRC-32/IEEE")
@@ -895,9 +905,29 @@ func main() {
 	sort.SliceStable(allFails, func(i, j int) bool {
 		return fmt.Sprint(allFails[i].detail) < fmt.Sprint(allFails[j].detail)
 	})
+	// A clause that already fails on independent evaluations is one root cause:
+	// its history-context variants are not reported separately.
+	plain := map[string]bool{}
+	for _, f := range allFails {
+		if !strings.Contains(f.fp, "after a ") {
+			plain[f.fp] = true
+		}
+	}
+	baseFP := func(fp string) string {
+		if i := strings.Index(fp, ", after a "); i >= 0 {
+			return fp[:i] + "]"
+		}
+		if i := strings.Index(fp, " [after a "); i >= 0 {
+			return fp[:i]
+		}
+		return fp
+	}
 	byFP := map[string][]fail{}
 	var order []string
 	for _, f := range allFails {
+		if b := baseFP(f.fp); b != f.fp && plain[b] {
+			continue
+		}
 		if _, ok := byFP[f.fp]; !ok {
 			order = append(order, f.fp)
 		}
